@@ -1,5 +1,5 @@
 (* Wire interface of Model/CoreRw.v (dispatch numbers 90-96). *)
-From DD Require Import Base.Wire Model.Smtlib Model.Rewrites Model.CoreRw Model.LetRw Run.RwWire.
+From DD Require Import Base.Wire Model.Smtlib Model.Rewrites Model.CoreRw Model.LetRw Model.InlineRw Run.RwWire.
 Local Open Scope list_scope.
 
 Definition r_gs (w : wire) : sexp -> option sexp :=
@@ -9,6 +9,9 @@ Definition r_gs (w : wire) : sexp -> option sexp :=
            end.
 Definition r_isvar (w : wire) : str -> bool := fun s => existsb (fun x => str_eqb (r_str x) s) (r_list w).
 
+Definition r_defs (w : wire) : list defn :=
+  map (fun d => match d with WL [n; fs; b] => mk_defn (r_str n) (r_sexps fs) (r_sexp b) | _ => mk_defn [] [] (T []) end) (r_list w).
+
 Definition dispatch_core (f : Z) (w : wire) : wire :=
   match f, w with
   | 90, WL [t] => w_olist (rw_erase_child (r_sexp t))
@@ -17,6 +20,7 @@ Definition dispatch_core (f : Z) (w : wire) : wire :=
   | 93, WL [t] => w_olist (rw_sort_children (r_sexp t))
   | 94, WL [t] => w_olist (rw_binary_reduction (r_sexp t))
   | 95, WL [t] => w_olist (rw_let_elim (r_sexp t))
+  | 98, WL [t; defs] => w_olist (rw_inline (r_defs defs) (r_sexp t))
   | 97, WL [t] => w_olist (rw_let_subst (r_sexp t))
   | 96, WL [name; vars] => WL (map w_str (ssn_names (r_isvar vars) (r_str name)))
   | _, _ => w_err
